@@ -2,6 +2,8 @@ import LyModel.Valid.FullUniqMain
 import LyModel.Valid.FullSaneB
 import LyModel.Valid.LemmasPerm
 import LyModel.Valid.FullOper
+import LyModel.Valid.FullPermGood
+import LyModel.Valid.FullExact
 /-!
 # C02 — validation accepts exactly the valid instances: the full schema language of the model
 
@@ -113,7 +115,8 @@ example : (buildL XfullU.base tFullOk = none ∧ (validate XfullU {} tFullOk).er
 
 /-- **`verdict_order_independent`**: for two instances that differ only in the order of sibling instances at any depth
 (`TreePerm`: generated by swapping adjacent siblings that are not list keys — libyang keeps the keys of a list entry first, in
-schema order —, at the top level or among the children of any node), both as the builders / parsers leave them: libyang's verdict
+schema order —, at the top level or among the children of any node), the first as the builders / parsers leave it (then so is the second:
+`goodL_perm`): libyang's verdict
 — the instance can be built and `lyd_validate` logs no error — is the same.  Proof: `validate_ok_iff_valid_full` on both sides,
 and the specification `Valid` is invariant under `TreePerm` (`valid_perm_keysFirst`, LyModel/Valid/LemmasPerm.lean: every
 constraint family of the specification is permutation invariant — instance counts, pairwise-different keys / values, cases with
@@ -124,9 +127,11 @@ theorem verdict_order_independent (X : SchemaX) (o : VOpts) (hop : o.operational
     (hqu : X.q.uniqueDefaultAlways = false) (hl : KidsLookupOk X) (hnl : NodeLookupOk X) (hio : InfoOk X) (hs : FullSane X o)
     (hup : UniqPathsOk X) (hw : UniqueWF X) (hk : KeysFirst X.base)
     (t t' : List DNode) (hp : TreePerm X.base t t')
-    (hg : goodL X X.top t = true) (hlen0 : t.length ≤ uint32Max) (hh : sheightL X.top ≤ walkFuel X t)
-    (hg' : goodL X X.top t' = true) (hlen0' : t'.length ≤ uint32Max) (hh' : sheightL X.top ≤ walkFuel X t') :
+    (hg : goodL X X.top t = true) (hlen0 : t.length ≤ uint32Max) (hh : sheightL X.top ≤ walkFuel X t) :
     (buildL X.base t = none ∧ (validate X o t).errs = []) ↔ (buildL X.base t' = none ∧ (validate X o t').errs = []) := by
+  have hg' : goodL X X.top t' = true := goodL_perm X hp hg
+  have hlen0' : t'.length ≤ uint32Max := by rw [length_perm hp]; exact hlen0
+  have hh' : sheightL X.top ≤ walkFuel X t' := by rw [walkFuel_perm X hp]; exact hh
   rw [validate_ok_iff_valid_full X o hop hq hqu hl hnl hio hs hup t hg hlen0 hh,
     validate_ok_iff_valid_full X o hop hq hqu hl hnl hio hs hup t' hg' hlen0' hh']
   exact valid_perm_keysFirst X o hw hk hp
@@ -156,14 +161,12 @@ example : KeysFirst XfullU.base ∧ TreePerm XfullU.base tFullOk tFullOkPerm ∧
     exact .kids _ _ _ _ (.kids _ _ _ _ (.cons _ (.kids _ _ _ _ (.swap _ _ _ (by decide) (by decide)))))
   have V : ∀ (t t' : List DNode), TreePerm XfullU.base t t' →
       (goodL XfullU XfullU.top t && decide (t.length ≤ uint32Max) && decide (sheightL XfullU.top ≤ walkFuel XfullU t)) = true →
-      (goodL XfullU XfullU.top t' && decide (t'.length ≤ uint32Max) && decide (sheightL XfullU.top ≤ walkFuel XfullU t')) = true →
       ((buildL XfullU.base t = none ∧ (validate XfullU {} t).errs = []) ↔ (buildL XfullU.base t' = none ∧ (validate XfullU {} t').errs = [])) :=
-    fun t t' hp h h' => by
+    fun t t' hp h => by
       obtain ⟨h1, h2, h3, h4, h5, h6, h7, h8, h9, h10⟩ := full_hyps {} (by decide) t h
-      obtain ⟨_, _, _, _, _, _, _, h8', h9', h10'⟩ := full_hyps {} (by decide) t' h'
-      exact verdict_order_independent XfullU {} rfl h1 h2 h3 h4 h5 h6 h7 (by decide) hk t t' hp h8 h9 h10 h8' h9' h10'
-  exact ⟨hk, hp1, (V _ _ hp1 (by decide) (by decide)).1 (by decide),
-    fun h => absurd ((V _ _ hp2 (by decide) (by decide)).2 h).2 (by decide)⟩
+      exact verdict_order_independent XfullU {} rfl h1 h2 h3 h4 h5 h6 h7 (by decide) hk t t' hp h8 h9 h10
+  exact ⟨hk, hp1, (V _ _ hp1 (by decide)).1 (by decide),
+    fun h => absurd ((V _ _ hp2 (by decide)).2 h).2 (by decide)⟩
 
 /-! ## `LYD_VALIDATE_OPERATIONAL` only downgrades -/
 
@@ -200,5 +203,41 @@ example : (validate XfullU { operational := true } tFullBad1).errs = [] ∧
   refine ⟨by decide, (operational_relaxes XfullU {} tFullBad1).1, by decide, ?_⟩
   obtain ⟨h1, h2, h3, h4, h5, h6, h7, h8, h9, h10⟩ := full_hyps {} (by decide) tFullOk (by decide)
   exact operational_accepts_valid XfullU {} rfl h1 h2 h3 h4 h5 h6 h7 tFullOk h8 h9 h10 (by decide)
+
+/-! ## `LYD_VALIDATE_MULTI_ERROR`: which families are reported -/
+
+/-- **`multi_error_set_exact`**: for a buildable instance in which no choice has data of two cases, the families of the errors
+`lyd_validate` logs under `LYD_VALIDATE_MULTI_ERROR` (the model's error list; without the option libyang stops at its head) are
+EXACTLY the constraint families the instance violates: `K` is violated iff some logged error has kind `K`.  (Same hypotheses as
+`validate_ok_iff_valid_full`; `→` is the kind-exact completeness `level_main_exact`, `←` is `validate_error_tag_full`.) -/
+theorem multi_error_set_exact (X : SchemaX) (o : VOpts) (hop : o.operational = false) (hq : X.q.implicitInnerCase = false)
+    (hqu : X.q.uniqueDefaultAlways = false) (hl : KidsLookupOk X) (hnl : NodeLookupOk X) (hio : InfoOk X) (hs : FullSane X o)
+    (hup : UniqPathsOk X) (t : List DNode)
+    (hg : goodL X X.top t = true) (hlen0 : t.length ≤ uint32Max) (hh : sheightL X.top ≤ walkFuel X t)
+    (hb : buildL X.base t = none) (hdc : EKind.dupCase ∉ violations X o t) (K : EKind) :
+    K ∈ violations X o t ↔ ∃ e ∈ (validate X o t).errs, e.kind = K :=
+  validate_multi_exact X o hop (uniqBridge_of_paths X o hop hq hl hio hs hqu hnl hup) hq hl hio hs t hg hlen0 hh hb hdc K
+
+/-- the hypothesis "no choice has data of two cases" is needed: with two cases the final checks descend into the first case only
+(`lyd_validate_siblings_schema_r`: "find the existing case … validate only this case"), so a violation inside the other case is
+not reported — `tFullBad2` violates `DupCase` and `NoMax`, and only `DupCase` is logged (also by libyang: same error list in the
+correspondence) -/
+theorem multi_error_set_exact_needs_one_case :
+    ¬ ∀ (K : EKind), K ∈ violations XfullU { multiError := true } tFullBad2 →
+      ∃ e ∈ (validate XfullU { multiError := true } tFullBad2).errs, e.kind = K := by
+  intro h
+  have hv : violations XfullU { multiError := true } tFullBad2 = [.dupCase, .noMax] := by decide
+  obtain ⟨e, he, hk⟩ := h .noMax (by rw [hv]; simp)
+  have : ∀ e ∈ (validate XfullU { multiError := true } tFullBad2).errs, e.kind ≠ .noMax := by decide
+  exact this e he hk
+
+/-- non-vacuity: `tFullBad1` violates `NoMandChoice` and `NoMand`, both are logged, nothing else -/
+example : (∀ K, K ∈ violations XfullU {} tFullBad1 ↔ ∃ e ∈ (validate XfullU {} tFullBad1).errs, e.kind = K) ∧
+    (∃ e ∈ (validate XfullU {} tFullBad1).errs, e.kind = .noMandChoice) ∧ EKind.dupCase ∉ violations XfullU {} tFullBad1 := by
+  obtain ⟨h1, h2, h3, h4, h5, h6, h7, h8, h9, h10⟩ := full_hyps {} (by decide) tFullBad1 (by decide)
+  have hv : violations XfullU {} tFullBad1 = [.noMandChoice, .noMand] := by decide
+  have hdc : EKind.dupCase ∉ violations XfullU {} tFullBad1 := by rw [hv]; simp
+  have H := multi_error_set_exact XfullU {} rfl h1 h2 h3 h4 h5 h6 h7 tFullBad1 h8 h9 h10 (by decide) hdc
+  exact ⟨H, (H .noMandChoice).1 (by rw [hv]; simp), hdc⟩
 
 end LyModel.Props.C02
